@@ -19,10 +19,10 @@ PAYLOAD = ["cast R", "cast R", "cast P", "cast NS", "cast SESS", "cast NONE", "c
            "kenum 1 2", "kenum 9 9", "ksessions 5:6", "kping 5", "kpong 3", "kready", "knone", "mnone",
            "nempty"]
 PROTECTED_PAYLOAD = ["cast R", "call R 3 -", "kspawn 55", "kjoin 1 1 55", "kenum 9 9", "kterm 55", "reply 55 1"]
-WRONG = ["k:1:I", "k:2:I", "k:0:I:g1", "k:0:I:g2", "k:0:I:g3", "k:0:I:g4", "k:0:I:g5", "raw:0", "raw:1",
+WRONG = ["E", "k:1:I", "k:2:I", "k:0:I:g1", "k:0:I:g2", "k:0:I:g3", "k:0:I:g4", "k:0:I:g5", "raw:0", "raw:1",
          "raw:2", "k:0:12345", "k:0:0"]
 AUTH_NOISE = ["name 1 2 3", "name 100 2 3", "name 4 101 0", "sstatus 0", "sstatus 2", "sstatus 4", "cstatus 1",
-              "cstatus 0", "schal 7 8 99", "cchal 5 k:0:I", "sack k:0:I", "empty", "cchal 5 k:1:I", "sack raw:1"]
+              "cstatus 0", "schal 7 8 99", "cchal 5 k:0:I", "sack k:0:I", "empty", "cchal 5 k:1:I", "sack raw:1", "sack E"]
 
 
 def honest(server, rng):
@@ -42,7 +42,7 @@ def gen_live(chk, n):
         for pos in range(len(base) + 1):
             for pl in PROTECTED_PAYLOAD + ["cast P", "cast NS", "cast NONE", "kenum 1 2"]:
                 ops = base[:pos] + [pl] + base[pos:] + [pl, "cast R", "kspawn 55"]
-                out.append((server, 0, ops))
+                out.append((server, 0, ops, 0))
         # every wrong digest at the decisive message, followed by payloads and a replay of the right one
         for wd in WRONG:
             ops = list(base)
@@ -50,7 +50,19 @@ def gen_live(chk, n):
             last[-1] = wd
             ops[-1] = " ".join(last)
             ops += ["cast R", "kspawn 55", base[-1], "cast R", "kenum 9 9"]
-            out.append((server, 0, ops))
+            out.append((server, 0, ops, 0))
+    # adversarial acceptor / initiator WITHOUT the node's cookie, nodes with long structured cookies:
+    # replayed (echoed) digest, digests under cookies that differ only after a long common prefix / in the
+    # last byte / in length, zeros; followed by payloads that must stay without effect
+    from c17 import COOKIES, near_cookies
+    tail = ["cast R", "kjoin 1 1 55", "kping 5", "kenum 9 9"]
+    for ck in [0] + [k for k in COOKIES if k >= 100][::3]:
+        near = near_cookies(ck)
+        for d in ["E", "raw:1"] + [f"k:{c}:I" for c in near[:3]] + [f"k:{near[0]}:99"]:
+            out.append((False, 0, ["sstatus 0", "schal 7 8 99", f"sack {d}"] + tail, ck))
+            out.append((True, 0, ["name 1 2 3", f"cchal 5 {d}"] + tail, ck))
+        out.append((False, 0, ["sstatus 0", "schal 7 8 99", f"sack k:{ck}:I"] + tail, ck))
+        out.append((True, 0, ["name 1 2 3", f"cchal 5 k:{ck}:I"] + tail, ck))
     for _ in range(n):
         server = rng.random() < 0.6
         pre = 1 if (server and rng.random() < 0.2) else 0
@@ -88,13 +100,19 @@ def gen_live(chk, n):
                 ops.append(rng.choice(AUTH_NOISE))
             else:
                 ops.append(f"malformed {rng.choice([0, 1])}")
-        out.append((server, pre, ops))
+        ck = 0 if rng.random() < 0.7 else rng.choice(COOKIES)
+        if ck:
+            near = near_cookies(ck)
+            sub = {"0": str(ck), "1": str(near[0]), "2": str(near[-1])}
+            ops = [re.sub(r"k:([012]):", lambda m: f"k:{sub[m.group(1)]}:", o) for o in ops]
+        out.append((server, pre, ops, ck))
     return out
 
 
 def live_line(c):
-    server, pre, ops = c
-    return f"live {'server' if server else 'client'} {pre} " + " ; ".join(ops)
+    server, pre, ops, ck = c
+    role = ("server" if server else "client") + (f"@{ck}" if ck else "")
+    return f"live {role} {pre} " + " ; ".join(ops)
 
 
 # ---------------------------------------------------------------------------------------------
@@ -233,7 +251,8 @@ def corpus_cases(kind):
                 continue
             w = line.split(" ", 3)
             if w[0] == kind == "live":
-                out.append((w[1] == "server", int(w[2]), [o.strip() for o in w[3].split(";")]))
+                role, _, k = w[1].partition("@")
+                out.append((role == "server", int(w[2]), [o.strip() for o in w[3].split(";")], int(k or 0)))
             elif w[0] == kind == "unit":
                 out.append((w[1], w[2], [o.strip() for o in w[3].split(";")]))
     return out
@@ -250,7 +269,7 @@ def run_gate(chk, build, factor):
     for c, t in zip(cases, parsed):
         hdr, init_frames, steps = t[1], t[2], t[3]
         is_server, connid, rpid, ppid, nspid, spid = hdr[1] == "true", hdr[2], hdr[3], hdr[4], hdr[5], hdr[6]
-        cfg = f"(mkConfig {'true' if is_server else 'false'} 0 100 101 false {connid})"
+        cfg = f"(mkConfig {'true' if is_server else 'false'} {c[3]} 100 101 false {connid})"
         msgs = []
         for st in steps:
             if st[1] == "Malformed":
@@ -279,6 +298,7 @@ def run_gate(chk, build, factor):
     res = coq_eval("C17gate", IMPORTS, exprs_model + exprs_oracle, shards=min(NCPU, 12))
     n = len(cases)
     distinct = set()
+    cookieless = []
     for i, c in enumerate(cases):
         is_server, rpid, steps, effs = infos[i]
         chk.coverage["evaluations"] += 1
@@ -297,7 +317,7 @@ def run_gate(chk, build, factor):
         ever_ok = False
         for s in steps:
             msg, flags, frames, listed, rnd = s[1], s[2], s[3], s[7], s[8]
-            want = None if issued is None else 1 + issued
+            want = None if issued is None else 1 + issued + c[3] * K
             if isinstance(msg, tuple) and msg[0] == "NAuth" and isinstance(msg[1], tuple):
                 a = msg[1]
                 if is_server and a[0] == "AClientChallenge" and want is not None and a[2] == want:
@@ -311,6 +331,9 @@ def run_gate(chk, build, factor):
                 why = "session authenticated / listed without the digest of its challenge"
             ever_ok = ever_ok or flags[2] == "true"
         reached = ever_ok or any(s[8] for s in steps)
+        listed_ever = any(x[1] == "true" for s in steps for x in s[7])
+        if (ever_ok or listed_ever) and not any(f"k:{c[3]}:" in op for op in c[2]):
+            cookieless.append(i)
         chk.count("gate.server" if is_server else "gate.client")
         chk.count("gate.authenticated" if ever_ok else ("gate.challenge_issued" if reached else "gate.closed_early"))
         for eff in effs:
@@ -334,6 +357,18 @@ def run_gate(chk, build, factor):
                           failing_input=False)
         if i in (3, 200) and len(chk.coverage["samples"]) < 6:
             chk.coverage["samples"].append({"harness_line": lines[i], "impl": impl[i][:1500], "oracle": str(oracle)})
+    # ---- a peer that never used the node's cookie must not get a session authenticated / listed
+    echo_only = [i for i in cookieless if any(op.endswith(" E") for op in cases[i][2])]
+    other = [i for i in cookieless if i not in set(echo_only)]
+    # an echoed digest is accepted by correct code only if the client's fresh challenge equals the server's
+    # (2^-32 per handshake): demand two distinct scripts before calling it a defect
+    for i in other[:3] + (echo_only[:3] if len({lines[j] for j in echo_only}) >= 2 else []):
+        chk.violation("live session: a peer that never used the node's cookie (replayed / foreign-cookie / garbage "
+                      "digests only) got the session authenticated",
+                      "C17 oracle (authenticated only for a peer that computed a digest with the node's cookie) rejects the "
+                      "real session's observations\n"
+                      + json.dumps({"kind": "live", "harness_line": lines[i], "impl": impl[i][:6000],
+                                    "cookieless_scripts_authenticated": len(cookieless)}, indent=1))
     return n, distinct
 
 
